@@ -220,6 +220,10 @@ where
         .handshake_timeout
         .unwrap_or(Duration::from_secs(15));
 
+      let hs_deadline = self
+        .handshake_deadline
+        .unwrap_or_else(|| TokioInstant::now() + hs_timeout);
+
       'handshake: loop {
         if self.zmtp_engine.phase == ZmtpPhase::Data
           || self.zmtp_engine.phase == ZmtpPhase::Closed
@@ -228,8 +232,10 @@ where
           break 'handshake;
         }
 
-        let read_result = tokio::time::timeout(
-          hs_timeout,
+        // One deadline for the whole handshake, not a fresh timeout per read: a peer that
+        // trickles bytes must still be dropped once the handshake interval has elapsed.
+        let read_result = tokio::time::timeout_at(
+          hs_deadline,
           hs_read_half.read_buf(&mut self.handshake_read_buf),
         )
         .await;
